@@ -188,7 +188,7 @@ def normalise(tree, modname):
     applied = {}
     for q, fn in functions_of(tree, modname):
         r = ref.get(q)
-        if not r:
+        if not r or q.startswith("@"):
             continue
         now = signatures(fn)
         present = {x.id for x in ast.walk(fn) if isinstance(x, ast.Name)} | {a.arg for a in ast.walk(fn) if isinstance(a, ast.arg)}
@@ -223,10 +223,269 @@ class _IfNormal(ast.NodeTransformer):
         return node
 
 
+_EQ_INV = {ast.Eq: ast.NotEq, ast.NotEq: ast.Eq, ast.Is: ast.IsNot, ast.IsNot: ast.Is, ast.In: ast.NotIn, ast.NotIn: ast.In}
+
+
+def _nnf(e, negate=False):
+    """negation normal form of an expression used as a test: negations are pushed through and/or and through (in)equality,
+    identity and membership comparisons (not through ordering comparisons: `not a < b` is not `a >= b` for NaN)"""
+    if isinstance(e, ast.UnaryOp) and isinstance(e.op, ast.Not):
+        return _nnf(e.operand, not negate)
+    if isinstance(e, ast.BoolOp):
+        op = e.op
+        if negate:
+            op = ast.Or() if isinstance(e.op, ast.And) else ast.And()
+        return ast.copy_location(ast.BoolOp(op=op, values=[_nnf(v, negate) for v in e.values]), e)
+    if negate and isinstance(e, ast.Compare) and len(e.ops) == 1 and type(e.ops[0]) in _EQ_INV:
+        return ast.copy_location(ast.Compare(left=e.left, ops=[_EQ_INV[type(e.ops[0])]()], comparators=e.comparators), e)
+    if negate:
+        return ast.copy_location(ast.UnaryOp(op=ast.Not(), operand=e), e)
+    return e
+
+
+class _TestNormal(ast.NodeTransformer):
+    def _t(self, node):
+        self.generic_visit(node)
+        t = node.test
+        if isinstance(node, ast.If) and node.orelse and isinstance(t, ast.UnaryOp) and isinstance(t.op, ast.Not):
+            # the outer negation of a two-way branch is removed by swapping the branches (_IfNormal)
+            node.test = ast.copy_location(ast.UnaryOp(op=ast.Not(), operand=_nnf(t.operand)), t)
+        else:
+            node.test = _nnf(t)
+        return node
+
+    visit_If = visit_While = visit_IfExp = visit_Assert = _t
+
+
 def normalise_shape(tree):
     if os.environ.get("PDSA_NO_ALPHA"):
         return tree
-    return _IfNormal().visit(tree)
+    tree = _TestNormal().visit(tree)
+    tree = _IfNormal().visit(tree)
+    ast.fix_missing_locations(tree)
+    return tree
+
+
+_SIMPLE = (ast.Assign, ast.AugAssign, ast.AnnAssign, ast.Return, ast.Expr, ast.Raise, ast.Assert, ast.If, ast.For)
+
+
+def inline_new_temps(tree, modname):
+    """A local that the reference function does not have, bound once to an expression and read once, by the statement
+    that follows, names a sub-expression: it is substituted back (`_r = e; return _r` is `return e`).  Only names that are
+    new with respect to the reference are touched, so the pinned source reads as it is."""
+    if os.environ.get("PDSA_NO_ALPHA"):
+        return {}
+    ref = _ref()
+    applied = {}
+    for q, fn in functions_of(tree, modname):
+        r = ref.get(q)
+        if r is None or q.startswith("@"):
+            continue
+        params = {a.arg for a in ast.walk(fn.args) if isinstance(a, ast.arg)}
+        for _ in range(8):
+            own = list(_own_nodes(fn))
+            stores, loads = {}, {}
+            for x in own:
+                if isinstance(x, ast.Name):
+                    (stores if isinstance(x.ctx, (ast.Store, ast.Del)) else loads).setdefault(x.id, []).append(x)
+            nested_use = set()
+            for x in ast.walk(fn):
+                if x is not fn and isinstance(x, (ast.FunctionDef, ast.AsyncFunctionDef, ast.Lambda, ast.ClassDef, ast.ListComp, ast.SetComp, ast.DictComp, ast.GeneratorExp)):
+                    nested_use.update(y.id for y in ast.walk(x) if isinstance(y, ast.Name))
+            done = False
+            for blk in _blocks(fn):
+                for i in range(len(blk) - 1):
+                    st, nxt = blk[i], blk[i + 1]
+                    if not (isinstance(st, ast.Assign) and len(st.targets) == 1 and isinstance(st.targets[0], ast.Name)):
+                        continue
+                    v = st.targets[0].id
+                    if v in r or v in params or v in nested_use or len(stores.get(v, [])) != 1 or len(loads.get(v, [])) != 1:
+                        continue
+                    if not isinstance(nxt, _SIMPLE):
+                        continue
+                    use = loads[v][0]
+                    header = [nxt.test] if isinstance(nxt, ast.If) else [nxt.iter] if isinstance(nxt, ast.For) else [nxt]
+                    if not any(y is use for h in header for y in ast.walk(h)):
+                        continue
+                    _Subst(use, st.value).visit(nxt)
+                    del blk[i]
+                    applied.setdefault(q, []).append(v)
+                    done = True
+                    break
+                if done:
+                    break
+            if not done:
+                break
+    return applied
+
+
+_FLIP = {ast.Lt: ast.Gt, ast.Gt: ast.Lt, ast.LtE: ast.GtE, ast.GtE: ast.LtE, ast.Eq: ast.Eq, ast.NotEq: ast.NotEq}
+
+
+def operand_orders(fn):
+    """the operand order of every + / * and of every single-operator comparison of a function, as text pairs"""
+    comm, cmps = set(), set()
+    for x in _own_nodes(fn):
+        if isinstance(x, ast.BinOp) and isinstance(x.op, (ast.Add, ast.Mult)):
+            comm.add((type(x.op).__name__, ast.unparse(x.left), ast.unparse(x.right)))
+        elif isinstance(x, ast.Compare) and len(x.ops) == 1 and type(x.ops[0]) in _FLIP:
+            cmps.add((type(x.ops[0]).__name__, ast.unparse(x.left), ast.unparse(x.comparators[0])))
+    ifexp = sorted({x.targets[0].id for x in _own_nodes(fn) if isinstance(x, ast.Assign) and isinstance(x.value, ast.IfExp)
+                    and len(x.targets) == 1 and isinstance(x.targets[0], ast.Name)})
+    _J = (ast.Return, ast.Raise, ast.Continue, ast.Break)
+    else_after_jump = sorted({ast.unparse(x.test) for x in _own_nodes(fn) if isinstance(x, ast.If) and x.orelse and isinstance(x.body[-1], _J)})
+    and_tests = sorted({ast.unparse(x.test) for x in _own_nodes(fn) if isinstance(x, ast.If) and not x.orelse and isinstance(x.test, ast.BoolOp)
+                        and isinstance(x.test.op, ast.And)})
+    two_way = sorted({ast.unparse(x.test) for x in _own_nodes(fn) if isinstance(x, ast.If) and x.orelse})
+    return {"comm": sorted(map(list, comm)), "cmp": sorted(map(list, cmps)), "ifexp": ifexp, "else_after_jump": else_after_jump, "and_tests": and_tests,
+            "two_way": two_way}
+
+
+def _sequence_like(e):
+    for x in ast.walk(e):
+        if isinstance(x, (ast.List, ast.Tuple, ast.ListComp, ast.JoinedStr, ast.Dict, ast.Set)) or (isinstance(x, ast.Constant) and isinstance(x.value, (str, bytes))):
+            return True
+    return False
+
+
+def _visibly_numeric(n):
+    """one operand of the + is a number or an arithmetic expression, so the + is not a concatenation"""
+    def num(e):
+        return (isinstance(e, ast.Constant) and isinstance(e.value, (int, float)) and not isinstance(e.value, bool)) or (
+            isinstance(e, ast.BinOp) and isinstance(e.op, (ast.Mult, ast.Div, ast.FloorDiv, ast.Pow, ast.Mod, ast.Sub))) or (
+            isinstance(e, ast.UnaryOp) and isinstance(e.op, ast.USub))
+    return num(n.left) or num(n.right)
+
+
+class _Reorder(ast.NodeTransformer):
+    def __init__(self, ref):
+        self.comm = {tuple(x) for x in ref.get("comm", [])}
+        self.cmp = {tuple(x) for x in ref.get("cmp", [])}
+        self.n = 0
+
+    def visit_FunctionDef(self, node):
+        return node  # nested functions have their own entry
+
+    visit_AsyncFunctionDef = visit_Lambda = visit_ClassDef = visit_FunctionDef
+
+    def visit_BinOp(self, node):
+        self.generic_visit(node)
+        if (isinstance(node.op, ast.Mult) or (isinstance(node.op, ast.Add) and _visibly_numeric(node))) and not _sequence_like(node):
+            k = type(node.op).__name__
+            l, r = ast.unparse(node.left), ast.unparse(node.right)
+            if (k, l, r) not in self.comm and (k, r, l) in self.comm:
+                node.left, node.right = node.right, node.left
+                self.n += 1
+        return node
+
+    def visit_Compare(self, node):
+        self.generic_visit(node)
+        if len(node.ops) == 1 and type(node.ops[0]) in _FLIP:
+            k = type(node.ops[0])
+            l, r = ast.unparse(node.left), ast.unparse(node.comparators[0])
+            if (k.__name__, l, r) not in self.cmp and (_FLIP[k].__name__, r, l) in self.cmp:
+                node.left, node.comparators, node.ops = node.comparators[0], [node.left], [_FLIP[k]()]
+                self.n += 1
+        return node
+
+
+def restore_operand_order(tree, modname):
+    """a + b / a * b (numbers or arrays: exact in IEEE arithmetic) and a < b / b > a are one expression with two spellings;
+    where the reference function spells it the other way round, the reference spelling is restored"""
+    if os.environ.get("PDSA_NO_ALPHA"):
+        return {}
+    ref = _ref()
+    applied = {}
+    for q, fn in functions_of(tree, modname):
+        r = ref.get("@ops:" + q)
+        if not r:
+            continue
+        # `x = a if c else b` where the reference function assigns x in the two branches of an if statement
+        keep = set(r.get("ifexp", []))
+        for blk in _blocks(fn):
+            for i, st in enumerate(list(blk)):
+                if (isinstance(st, ast.Assign) and isinstance(st.value, ast.IfExp) and len(st.targets) == 1 and isinstance(st.targets[0], ast.Name)
+                        and st.targets[0].id not in keep and st.targets[0].id in ref.get(q, {})):
+                    import copy
+                    a, b = copy.copy(st), copy.copy(st)
+                    a.value, b.value = st.value.body, st.value.orelse
+                    new = ast.copy_location(ast.If(test=st.value.test, body=[a], orelse=[b]), st)
+                    new = _IfNormal().visit(new)
+                    blk[blk.index(st)] = new
+                    applied[q] = applied.get(q, 0) + 1
+        # a two-way branch written with the inverse test and the branches exchanged
+        two_way = set(r.get("two_way", []))
+        for x in list(_own_nodes(fn)):
+            if isinstance(x, ast.If) and x.orelse and not (len(x.orelse) == 1 and isinstance(x.orelse[0], ast.If)) and ast.unparse(x.test) not in two_way:
+                inv = _nnf(x.test, True)
+                if ast.unparse(inv) in two_way:
+                    x.test = inv
+                    x.body, x.orelse = x.orelse, x.body
+                    applied[q] = applied.get(q, 0) + 1
+        eaj, ands = set(r.get("else_after_jump", [])), set(r.get("and_tests", []))
+        _J = (ast.Return, ast.Raise, ast.Continue, ast.Break)
+        for _ in range(4):
+            changed = False
+            for blk in _blocks(fn):
+                for i, st in enumerate(blk):
+                    if not isinstance(st, ast.If) or st.orelse:
+                        continue
+                    # `if a: if b: X`  where the reference tests `a and b`
+                    if len(st.body) == 1 and isinstance(st.body[0], ast.If) and not st.body[0].orelse:
+                        inner = st.body[0]
+                        vals = (st.test.values if isinstance(st.test, ast.BoolOp) and isinstance(st.test.op, ast.And) else [st.test]) + \
+                               (inner.test.values if isinstance(inner.test, ast.BoolOp) and isinstance(inner.test.op, ast.And) else [inner.test])
+                        merged = ast.BoolOp(op=ast.And(), values=list(vals))
+                        if ast.unparse(merged) in ands:
+                            st.test = ast.copy_location(merged, st.test)
+                            st.body = inner.body
+                            changed = True
+                            break
+                    # `if c: ...; return` followed by the rest, where the reference has the rest under else
+                    if isinstance(st.body[-1], _J) and i + 1 < len(blk) and ast.unparse(st.test) in eaj:
+                        st.orelse = blk[i + 1:]
+                        del blk[i + 1:]
+                        changed = True
+                        break
+                if changed:
+                    break
+            if not changed:
+                break
+            applied[q] = applied.get(q, 0) + 1
+        for _ in range(3):
+            t = _Reorder(r)
+            for st in fn.body:
+                t.visit(st)
+            if not t.n:
+                break
+            applied[q] = applied.get(q, 0) + t.n
+    return applied
+
+
+def _blocks(fn):
+    out = []
+    stack = [fn]
+    while stack:
+        n = stack.pop()
+        for fld in ("body", "orelse", "finalbody"):
+            b = getattr(n, fld, None)
+            if isinstance(b, list) and b and isinstance(b[0], ast.stmt):
+                out.append(b)
+                for s_ in b:
+                    if not isinstance(s_, (ast.FunctionDef, ast.AsyncFunctionDef, ast.ClassDef)):
+                        stack.append(s_)
+        for h in getattr(n, "handlers", []) or []:
+            out.append(h.body)
+            stack.extend(h.body)
+    return out
+
+
+class _Subst(ast.NodeTransformer):
+    def __init__(self, target, value):
+        self.target, self.value = target, value
+
+    def visit_Name(self, node):
+        return self.value if node is self.target else node
 
 
 def build_reference(repo_pkg_dir, pkg="pydrobert.speech"):
@@ -240,9 +499,144 @@ def build_reference(repo_pkg_dir, pkg="pydrobert.speech"):
             tree = normalise_shape(ast.parse(fh.read()))
         for q, fn in functions_of(tree, modname):
             s = signatures(fn)
-            if s:
-                table[q] = s
+            table[q] = s
+            table["@ops:" + q] = operand_orders(fn)
+        table["@module:" + modname] = {"names": sorted(module_names(tree))}
+        for cq, cnode in classes_of(tree, modname):
+            table["@class:" + cq] = attr_signatures(cnode)
     return table
+
+
+def module_names(tree):
+    out = set()
+    for st in ast.walk(tree):
+        pass
+    for st in tree.body:
+        for x in ast.walk(st) if not isinstance(st, (ast.FunctionDef, ast.AsyncFunctionDef, ast.ClassDef)) else []:
+            if isinstance(x, ast.Name) and isinstance(x.ctx, ast.Store):
+                out.add(x.id)
+        if isinstance(st, (ast.FunctionDef, ast.AsyncFunctionDef, ast.ClassDef)):
+            out.add(st.name)
+    return out
+
+
+def classes_of(tree, modname):
+    out = []
+
+    def walk(body, prefix):
+        for st in body:
+            if isinstance(st, ast.ClassDef):
+                q = prefix + "." + st.name
+                out.append((q, st))
+                walk(st.body, q)
+            elif isinstance(st, (ast.If, ast.Try)):
+                for fld in ("body", "orelse", "finalbody"):
+                    walk(getattr(st, fld, []) or [], prefix)
+                for h in getattr(st, "handlers", []) or []:
+                    walk(h.body, prefix)
+    walk(tree.body, modname)
+    return out
+
+
+def attr_signatures(cnode):
+    """{private attribute: [signature of its first store in the class (methods in source order), ordinal]}"""
+    order = []
+    for m in cnode.body:
+        if not isinstance(m, (ast.FunctionDef, ast.AsyncFunctionDef)) or not m.args.args:
+            continue
+        s0 = m.args.args[0].arg
+        loc = locals_of(m) | params_of(m)
+        parents = {}
+        for n in ast.walk(m):
+            for c in ast.iter_child_nodes(n):
+                parents[id(c)] = n
+        for n in ast.walk(m):
+            if isinstance(n, ast.Attribute) and isinstance(n.ctx, ast.Store) and isinstance(n.value, ast.Name) and n.value.id == s0 and n.attr.startswith("_") \
+                    and not n.attr.startswith("__"):
+                cur = n
+                while cur is not None and not isinstance(cur, ast.stmt):
+                    cur = parents.get(id(cur))
+                if cur is not None:
+                    order.append((m.lineno, n.lineno, n.col_offset, n.attr, cur, s0, loc))
+    order.sort(key=lambda t: t[:3])
+    out, counts = {}, {}
+    for _, _, _, attr, st, s0, loc in order:
+        if attr in out:
+            continue
+
+        class B(ast.NodeTransformer):
+            def visit_Attribute(self, node):
+                self.generic_visit(node)
+                if isinstance(node.value, ast.Name) and node.value.id == s0 and node.attr.startswith("_") and not node.attr.startswith("__"):
+                    return ast.copy_location(ast.Attribute(value=node.value, attr="_", ctx=node.ctx), node)
+                return node
+
+            def visit_Name(self, node):
+                if node.id in loc and node.id != s0:
+                    return ast.copy_location(ast.Name(id="_", ctx=node.ctx), node)
+                return node
+        import copy
+        try:
+            txt = " ".join(ast.unparse(B().visit(copy.deepcopy(_header(st)))).split())
+        except Exception:
+            txt = type(st).__name__
+        k = counts.get(txt, 0)
+        counts[txt] = k + 1
+        out[attr] = [txt, k]
+    return out
+
+
+class _RenameAttr(ast.NodeTransformer):
+    def __init__(self, mapping):
+        self.mapping = mapping
+
+    def visit_Attribute(self, node):
+        self.generic_visit(node)
+        if node.attr in self.mapping:
+            node.attr = self.mapping[node.attr]
+        return node
+
+
+def normalise_attrs(tree, modname):
+    """private attributes renamed consistently inside a class get their reference names back (same idea as for locals)"""
+    if os.environ.get("PDSA_NO_ALPHA"):
+        return {}
+    ref = _ref()
+    applied = {}
+    for cq, cnode in classes_of(tree, modname):
+        r = ref.get("@class:" + cq)
+        if not r:
+            continue
+        now = attr_signatures(cnode)
+        present = {x.attr for x in ast.walk(cnode) if isinstance(x, ast.Attribute)}
+        # an attribute that other modules of the package read keeps its name there too; only rename when the reference name is gone everywhere in this module
+        present_mod = {x.attr for x in ast.walk(tree) if isinstance(x, ast.Attribute)}
+        missing = [a for a in r if a not in present_mod]
+        extra = [a for a in now if a not in r]
+        by_sig = {}
+        for a in extra:
+            by_sig.setdefault(tuple(now[a]), []).append(a)
+        mapping = {}
+        for mname in missing:
+            cands = by_sig.get(tuple(r[mname]), [])
+            if len(cands) == 1 and cands[0] not in mapping:
+                mapping[cands[0]] = mname
+        if mapping:
+            _RenameAttr(mapping).visit(cnode)
+            applied[cq] = mapping
+    return applied
+
+
+def is_new_function(qualname):
+    """a function that the reference tree does not have (a helper extracted by a refactoring)"""
+    ref = _ref()
+    return bool(ref) and qualname not in ref
+
+
+def is_new_module_name(modname, name):
+    ref = _ref()
+    m = ref.get("@module:" + modname)
+    return bool(m) and name not in m.get("names", [])
 
 
 if __name__ == "__main__":
@@ -251,4 +645,4 @@ if __name__ == "__main__":
     t = build_reference(pkg_dir)
     with open(REF_PATH, "w") as fh:
         json.dump(t, fh, indent=0, sort_keys=True)
-    print("alpha_ref.json: %d functions, %d locals" % (len(t), sum(len(v) for v in t.values())))
+    print("alpha_ref.json: %d entries" % len(t))
